@@ -57,12 +57,18 @@ def check(ctx, only=None, list_only=False):
     res = core.run_all(ctx, obs)
     meta = {
         "functions_encoded": ["all module-level entry points of the DFT-space API (fft64: dft, idft, idft_tmp_a, svp_prepare, svp_apply_dft, znx_small_single_product, "
-                              "vmp_prepare_contiguous, vmp_apply_dft, vmp_apply_dft_to_dft; ntt120: dft, idft, idft_tmp_a)", "the *_simple caching entry points"],
-        "bounds": "N in {4,8}, sizes 2, both cpu flags; static state havocked by cbmc --nondet-static; three/four-call histories for the caching functions",
-        "outside": "thread schedules as such (this is a sequential non-interference reduction, not a schedule exploration); weak-memory behaviour; torn reads during the "
-                   "documented-as-unsafe first use of a *_simple function; the SSA write-set analysis of the second *_simple call planned in the design is not built: "
-                   "that a warmed-up *_simple call performs no write to static storage is NOT decided here (only that it returns the right bits)",
-        "assumptions": ["non-interference theorem: per-call frame + absence of hidden static state imply race freedom and isolation for calls on disjoint data",
-                        "--nondet-static havocs every non-const static-lifetime object, including function-local statics and __thread objects"],
+                              "vmp_prepare_contiguous, vmp_apply_dft, vmp_apply_dft_to_dft; ntt120: dft, idft, idft_tmp_a)", "the *_simple caching entry points",
+                              "reim_to_znx64_simple / cplx_to_tnx32_simple with their thread-local caches as one slot per emulated thread (-DVF_TLS_EMUL)"],
+        "bounds": "N in {4,8}, sizes 2, both cpu flags; static state havocked by cbmc --nondet-static; SSA write set of every entry point at N=8 (fft64) / N=4 (ntt120) over the "
+                  "whole unsliced VC; three/four-call histories for the caching functions with the write set taken after one warm-up call per dimension; two emulated threads, "
+                  "three calls, parameter sets differing in one component (bound or divisor), m=8",
+        "outside": "instruction-level thread schedules (this is a sequential non-interference reduction plus call-granularity interleavings of two threads); weak-memory behaviour; "
+                   "torn reads during the documented-as-unsafe first use of a *_simple function; more than two threads / more than three calls per history; a write to shared "
+                   "storage on a path that symbolic execution of the bounded shapes does not take",
+        "assumptions": ["non-interference theorem: per-call frame + absence of writes to shared static storage imply race freedom and isolation for calls on disjoint data",
+                        "--nondet-static havocs every non-const static-lifetime object, including function-local statics and __thread objects",
+                        "CBMC's SSA naming distinguishes automatic (x!0@1), thread-local static (f::1::x!0) and shared static / heap objects (no suffix); the exported VC lists "
+                        "assignments in program order (the marker assignment separates construction / warm-up from the calls under test)",
+                        "a write-set hit is reported as a violation only after ThreadSanitizer reports a data race for two real threads running the same calls natively"],
     }
     return core.finish(ctx, res, meta)
